@@ -1,6 +1,7 @@
 """C04 - every storage kind behaves as the same map (clause: mask discipline)."""
 from ..core import base_ty, generic_args
 from ..summaries import entity_of_index
+from . import _identity
 
 ARMED = True
 TECHNIQUE = "pairing / guard-dominance / value-origin rules over MIR for the mask-vs-storage discipline (clause of the property, not the map equivalence)"
@@ -20,7 +21,7 @@ EXPLANATION = (
     "arrays reset together): every Vec field a storage's insert pushes onto is cleared by its clean(). R8 (accessor siblings): within one storage impl, "
     "get, get_mut and shared_get_mut compute the position they read in the component container by the same chain of operations from the index "
     "parameter (sibling agreement on the abstracted origin of the container index; a 'fast path' that indexes directly in one accessor only is a "
-    "disagreement). R9 (membership observers): the handle-less &self observers of Storage (count, is_empty, mask) compute their answer from the storage's mask and from no other state of the storage (a cached count kept beside the mask is second state that every path, including unwind paths, would have to keep in step). W10: outside the crate the raw storage is only "
+    "disagreement). R9 (membership observers): the handle-less &self observers of Storage (count, is_empty, mask) compute their answer from the storage's mask and from no other state of the storage (a cached count kept beside the mask is second state that every path, including unwind paths, would have to keep in step). R10 (the key is the whole index): no body of the storage modules applies an integer cast narrower than 32 bits to the index it is handed (origin through copies and casts only - `id % 64 as u8` is a bit position, not a key): a narrowed index makes two far-apart entities share a slot. W10: outside the crate the raw storage is only "
     "reachable mutably through an unsafe fn and the mask / inner fields of MaskedStorage are private, so the discipline cannot be bypassed by safe user code."
 )
 NOT_DECIDED = ("equality with a map for all operation sequences: return VALUES, dense swap_remove index fix-up, default-filled gaps, slice views "
@@ -149,7 +150,8 @@ def run(ctx):
                  ("C04-R5", "overwrite hands back the replaced value"), ("C04-R6", "an owner's mask is emptied only together with clean()"),
                  ("C04-R7", "parallel arrays of a storage are reset together"),
                  ("C04-R8", "get / get_mut / shared_get_mut of a storage locate the slot the same way"),
-                 ("C04-R9", "membership observers (count, is_empty, mask) are computed from the mask")]:
+                 ("C04-R9", "membership observers (count, is_empty, mask) are computed from the mask"),
+                 ("C04-R10", "no storage narrows the entity index it is keyed on")]:
         ctx.rule(r, t)
     ctx.exception("Drop impls of rollback guards (types every construction of which is mem::forget-ed on all normal paths; today: RemoveOnDrop in not_present_insert)",
                   "R1: the destructor only runs while unwinding between the raw insert and the forget; it undoes an insert whose mask update unwound")
@@ -167,6 +169,8 @@ def run(ctx):
         r7(ctx, facts)
         r8(ctx, facts)
         r9(ctx, facts)
+        _identity.rule(ctx, facts, "C04-R10", lambda b: b.path.lstrip("<").startswith(("storage::", "changeset::")), 6,
+                       "a far-apart entity then locates, overwrites or removes another entity's slot")
     from .. import witness
     witness.run_set(ctx, "C04", ["w10_unprotected_storage_mut_needs_unsafe", "w10_masked_storage_fields_private"])
 
